@@ -6,7 +6,7 @@ import Plotink.Model.C15
 c15 params                                     -> the literals of `Params.std`
 c15 pv <str>                                   -> `None` | dotted release
 c15 ge <strA> <strB>                           -> `<versionGe a b> <vle b a>` | `ERR`
-c15 conn <P…10> <given> <found> <caller> <opens> <reads> <writes> <ops>
+c15 conn <P…10> <given> <found> <caller> <opens> <reads> <writes> <ops>     ops: C connect, R request, D disconnect, N new object
 c15 leg  <P…10> <reads> <writes> <fn> <args…>
 ```
 strings: comma-separated code points, `-` = empty; optional strings `N` | `S<str>`;
@@ -78,6 +78,10 @@ def runOps (P : Params) (given found caller : Option Str) : List Char → St →
         | .ok false => "False"
         | .error e => eexc e
       runOps P given found caller ops out.st out.io (s!"{r}:{out.io.written.length}" :: acc)
+    else if op == 'D' then      -- `disconnect()` (whatever `close()` does)
+      runOps P given found caller ops (disconnect st) io (s!"disc:{io.written.length}" :: acc)
+    else if op == 'N' then      -- a new `EBB3()` object on the same device script
+      runOps P given found caller ops St.fresh io (s!"new:{io.written.length}" :: acc)
     else
       match requestWhenBlocked st io with
       | some (st', io') => runOps P given found caller ops st' io' (s!"blocked:{io'.written.length}" :: acc)
